@@ -120,8 +120,8 @@ _G = "BumpVerif.Props.GenFn"
 GEN_MODS = {
     "C01": ["Fast", "Realloc", "Rewind", "NewChunk", "Slow", "Glue"], "C02": ["Realloc", "Rewind", "Typed"], "C03": ["Details", "Reset", "NewChunk", "Slow", "Chunks"], "C04": ["Arith", "Fast", "Realloc", "Ctor"],
     "C06": ["Bytes", "Fast", "Reset", "Chunks"], "C07": ["Limit", "Details", "Reset", "NewChunk", "Slow", "Glue"], "C08": ["Bytes", "Details", "Reset", "NewChunk", "Iter", "Chunks"],
-    "C09": ["Arith", "Fast", "Details", "Realloc", "NewChunk", "Slow", "Ctor"], "C10": ["Footer", "Rewind", "Iter", "Typed"], "C11": ["Footer", "Realloc", "Rewind", "Typed"], "C12": ["Realloc", "Glue"],
-    "C13": ["RawVec", "Vec", "VecDedup", "VecDrain", "VecIntoIter", "VecFilter", "VecCopy", "Splice", "SpliceDrop", "Slices"], "C15": ["Vec", "VecDedup", "VecDrain", "VecIntoIter", "VecFilter", "Splice", "SpliceDrop", "Box"], "C16": ["Vec", "VecDedup", "VecDrain", "VecIntoIter", "VecFilter", "Splice", "SpliceDrop", "Str"], "C14": ["Lossy", "Str", "StrFwd"], "C17": ["Box"], "C18": ["Details", "Fast", "Bytes", "RawVec", "Vec", "VecCopy", "Slow", "Ctor", "Glue", "StrFwd"], "C19": ["Arith", "Details", "RawVec", "Ctor", "Slices", "StrFwd"], "C20": ["Footer"],
+    "C09": ["Arith", "Fast", "Details", "Realloc", "NewChunk", "Slow", "Ctor", "FwdCore"], "C10": ["Footer", "Rewind", "Iter", "Typed"], "C11": ["Footer", "Realloc", "Rewind", "Typed"], "C12": ["Realloc", "Glue"],
+    "C13": ["RawVec", "Vec", "VecDedup", "VecDrain", "VecIntoIter", "VecFilter", "VecCopy", "Splice", "SpliceDrop", "Slices", "FwdVec"], "C15": ["Vec", "VecDedup", "VecDrain", "VecIntoIter", "VecFilter", "Splice", "SpliceDrop", "Box", "FwdVec"], "C16": ["Vec", "VecDedup", "VecDrain", "VecIntoIter", "VecFilter", "Splice", "SpliceDrop", "Str", "FwdVec", "FwdStr"], "C14": ["Lossy", "Str", "StrFwd", "FwdStr"], "C17": ["Box"], "C18": ["Details", "Fast", "Bytes", "RawVec", "Vec", "VecCopy", "Slow", "Ctor", "Glue", "StrFwd"], "C19": ["Arith", "Details", "RawVec", "Ctor", "Slices", "StrFwd", "FwdCore"], "C20": ["Footer"],
 }
 for _p, _ms in GEN_MODS.items():
     if _p not in SPECS:
